@@ -8,7 +8,7 @@ prop=${id%%-*}
 wt=/tmp/wt/$id
 in=/var/tmp/seedin/$id; mkdir -p "$in"
 git -C "$wt" diff -- persim > "$in/patch.diff"
-cp "$wt/_seed/demo.py" "$in/demo.py"; cp "$wt/_seed/notes.md" "$in/notes.md" 2>/dev/null
+cp "$wt"/_seed/*.py "$in/" 2>/dev/null; cp "$wt/_seed/demo.py" "$in/demo.py"; cp "$wt/_seed/notes.md" "$in/notes.md" 2>/dev/null
 [ -s "$in/patch.diff" ] || { echo "EMPTY PATCH for $id"; exit 3; }
 /verif/tools/seed_eval.sh "$id" "$in/patch.diff" "$in/demo.py" "$prop" "$prop" "$@"
 cp "$in/notes.md" "/verif/seeded/$id/notes.md" 2>/dev/null
